@@ -9,7 +9,8 @@ SINGLE += [("enable password 10 {}", "x"), ("password 15 {}", "x"), ("enable pas
 ENCLOSE = [("", ""), ('"', '"'), ("'", "'"), ("[", "]"), ("{", "}"), ("", ";"), ("", ","), ('"', '";'), ("\\'", "\\'"), ('\\"', '\\"')]
 
 
-ENCLOSE_REPEAT = [('""', '""'), ("", "}}"), ("[[", "]]"), ("{{", "}}"), ('"', '"}}'), ("''", "''"), ("", ";;"), ('{"', '"}}'), ("[", "]]")]   # the same enclosing character several times in a row
+ENCLOSE_REPEAT = [('""', '""'), ("", "}}"), ("[[", "]]"), ("{{", "}}"), ('"', '"}}'), ("''", "''"), ("", ";;"), ('{"', '"}}'), ("[", "]]"),
+                  ('{["', '"]},'), ("[{'", "'}];"), ('{"', '"}];,')]     # four and five rounds of stripping   # the same enclosing character several times in a row
 
 
 def norm_ws(s):
